@@ -20,3 +20,10 @@ Theorem C12_insert_registers_uid : forall d nu r i d' nu',
              (forall u, get_uid (i_props i') = Some u -> mem u (d_uids d') = true) /\
              (forall x, x <> r -> lookup x (d_insts d') = lookup x (d_insts d)).
 Proof. exact inner_insert_uid. Qed.
+
+(* freshly generated ids never repeat, for any number of threads and any interleaving of their calls
+   (UniqueId::now() takes its index by one atomic fetch_add; fewer than 2^32 calls per process) *)
+From RbxVerif Require Import UidGen UidGenFacts.
+Theorem C12_now_distinct_any_schedule : forall sched ctr,
+  ctr < U32 -> N.of_nat (length sched) <= U32 -> NoDup (List.map snd (run_sched sched ctr)).
+Proof. exact now_distinct_any_schedule. Qed.
